@@ -1859,10 +1859,18 @@ impl<'a, E: quiver_core::effects::Effect> Compiler<'a, E> {
         // Apply narrowing to the matched value's provenance if the pattern narrows the type.
         // This is done here on the success path - the type has been narrowed by the pattern.
         // Note: result_type is the narrowed type from analyze_pattern.
+        // A part of the provenance that goes through a name this pattern has just bound refers
+        // to the old variable of that name, which is out of reach now: leave it out, or the
+        // narrowing would be applied to the new variable (`t = t.0`).
         if !self.is_never(matched_type) && !self.is_nil(matched_type) {
+            let narrowed_provenance = bindings
+                .iter()
+                .fold(value_provenance.clone(), |provenance, (name, _)| {
+                    provenance.without_variable(name)
+                });
             apply_narrowing(
                 &mut self.scopes,
-                &value_provenance,
+                &narrowed_provenance,
                 matched_type,
                 self.program,
             );
